@@ -128,6 +128,8 @@ def build_corpus(tier, rng):
                     c.add_q(k, "iterops", prefix + ["0:" + op] + probe(), note="cover")
                 # clone then diverge: the clone and the original advance independently
                 c.add_q(k, "iterops", prefix + ["c0", "1:n", "0:b", "1:l", "0:l", "1:t1", "0:n", "c1", "2:b", "1:n", "0:l", "1:l", "2:l"], note="clone")
+                # clone_from: the target takes over BOTH cursors of the source (whatever its own history was)
+                c.add_q(k, "iterops", prefix + ["c0", "1:b", "1:n", "F0>1", "1:l", "1:b", "1:n", "0:l", "1:l", "0:b", "F1>0", "0:l", "0:n", "0:b"], note="clone_from")
         # (b) all short sequences
         short = ["n", "b", "t0", "t1", "t2", "t%d" % MAXU, "u0", "u1", "u%d" % MAXU, "l"]
         L = 4 if thorough else 3
